@@ -35,6 +35,35 @@ ENTRY_CLASSES = {
 BUILTIN_KIND = {type(None): 2, tuple: 3, list: 4, dict: 5, OrderedDict: 7, defaultdict: 8, deque: 9}
 
 
+def is_encoding(nodes) -> bool:
+    """independent check that the engine's node array (kind, arity, node_data, node_entries, custom, num_leaves, num_nodes,
+    original_keys) is the post-order listing of a tree with consistent counts: leaves are bare records, `None` nodes are
+    childless, dict-kind nodes carry one distinct key per child, every internal record's counts are the sums over its
+    children, and exactly one root remains"""
+    stack = []
+    for kind, arity, data, entries, custom, nl, nn, okeys in nodes:
+        kind = int(kind)
+        if kind == 1:
+            if (arity, data, entries, custom, nl, nn, okeys) != (0, None, None, None, 1, 1, None):
+                return False
+            stack.append((1, 1))
+            continue
+        if arity < 0 or len(stack) < arity:
+            return False
+        kids = stack[len(stack) - arity:] if arity else []
+        del stack[len(stack) - arity:]
+        if nl != sum(k[0] for k in kids) or nn != sum(k[1] for k in kids) + 1:
+            return False
+        if kind == 2 and arity != 0:
+            return False
+        if kind in (5, 7, 8):
+            keys = data[1] if kind == 8 else data
+            if len(keys) != arity or any(keys[i] == keys[j] for i in range(len(keys)) for j in range(i)):
+                return False
+        stack.append((nl, nn))
+    return len(stack) == 1
+
+
 class BadOp(Exception):
     pass
 
@@ -334,6 +363,8 @@ class Impl:
             return [u.enc_key(self.spec(s[1]).entry(int(s[2])))]
         if op == 'children':
             return [u.enc_spec(c) for c in self.spec(s[1]).children()]
+        if op == 'is_enc':
+            return [is_encoding(self.spec(s[1]).__getstate__()[0])]
         if op == 'counts':
             sp = self.spec(s[1])
             return [sp.num_leaves, sp.num_nodes, sp.num_children, int(sp.kind),
